@@ -248,10 +248,15 @@ class WorkerStep(Harness):
             zx.cur().stdout = []
         import threading
         tid = threading.get_ident()
-        alone = self.one(M, self.second, inp['unk'], True)
-        first = self.one(M, self.first, 'zz', True)
-        second = self.one(M, self.second, inp['unk'], False)      # same thread, no reset: what a reused pool worker sees
+        # first A, then B on the same thread without any reset (what a reused pool worker sees); only then the reference run of B alone, after the whole
+        # process state (every class-level / module-level container of the tool) has been put back to what a new process starts with - so that a cache filled by
+        # the reference run cannot hide a stale entry.  The same unknown name rides along in both tasks (identical lists where the archetypes share them).
+        first = self.one(M, self.first, inp['unk'], True)
+        second = self.one(M, self.second, inp['unk'], False)
         left = tid in M.ssh2_kexdb.SSH2_KexDB.DB_PER_THREAD or tid in M.ssh1_kexdb.SSH1_KexDB.DB_PER_THREAD
+        from vf.harness import fresh_process_state
+        fresh_process_state(M)
+        alone = self.one(M, self.second, inp['unk'], True)
         M.ssh2_kexdb.SSH2_KexDB.DB_PER_THREAD.clear()
         M.ssh1_kexdb.SSH1_KexDB.DB_PER_THREAD.clear()
         return {'alone': alone, 'second': second, 'first_ok': not isinstance(first, Exc), 'first_ret': None if isinstance(first, Exc) else first[0], 'table_left_behind': left}
@@ -275,6 +280,39 @@ class WorkerStep(Harness):
         if label in ('same-report-as-single-target-run', 'same-json-as-single-target-run', 'same-status-as-single-target-run', 'no-table-left-for-the-finished-task'):
             return 'worker-never-discards-its-thread-table'
         return label
+
+
+class NoSharedTrace(Harness):
+    """after a worker task has finished, every process-wide container of the tool (module globals, class attributes: rating tables, probe tables, policy tables,
+    caches) is exactly as in a freshly started process.  What a later or concurrent task of another thread can see is only such shared state, so a scan that
+    leaves no trace there cannot influence another target - independent of scheduling."""
+    prop, ob = PROP, 'O1'
+    width = 64
+
+    def __init__(self, arch, json):
+        self.arch, self.json = arch, json
+        self.name = 'nosharedtrace-%s-%s' % (arch, 'json' if json else 'text')
+
+    def params(self):
+        return {'arch': self.arch, 'json': self.json}
+
+    def inputs(self):
+        return {'unk': zx.fresh_str('unk', 2, OL.NAMECH)}
+
+    def run(self, M, inp):
+        if zx.active():
+            zx.cur().stdout = []
+        from vf import stateguard
+        from vf.harness import fresh_process_state
+        fresh_process_state(M)
+        ws = WorkerStep(self.arch, self.arch, self.json)
+        r = ws.one(M, self.arch, inp['unk'], True)
+        d = stateguard.diff(M)
+        return {'ok': not isinstance(r, Exc), 'changed': d}
+
+    def check(self, inp, obs):
+        yield 'task-completes', obs['ok']
+        yield 'no-process-wide-state-differs-after-the-task', obs['changed'] == []
 
 
 class ConfigIsolation(Harness):
@@ -393,6 +431,9 @@ def tasks(tier):
                 if (first, second) not in [('rsa1024', 'rsa4096'), ('rsa4096', 'rsa1024'), ('gex1024', 'gex4096'), ('gex4096', 'gex1024'), ('rsa1024', 'gex1024')]:
                     T.append(WorkerStep(first, second, True))
                     T.append(WorkerStep(first, second, False))
+    for arch in ('terrapin', 'good', 'rsa1024', 'gex1024', 'plain'):
+        for json in (False, True):
+            T.append(NoSharedTrace(arch, json))
     T.append(ConfigIsolation())
     T.append(WorkerConfig())
     for shape in [('host:port', 'host'), ('host', 'host:port'), ('host:port', 'host:port', 'host'), ('host:port', 'blank', 'host', 'host')]:
@@ -410,6 +451,8 @@ def harness_by_name(name, params):
         return WorkerStep(p['first'], p['second'], p['json'])
     if k == 'worker' and name.endswith('worker-config-equals-shared-config'):
         return WorkerConfig()
+    if k == 'nosharedtrace':
+        return NoSharedTrace(p['arch'], p['json'])
     if k == 'targetloop':
         return TargetLoop(p['shape'], p['with_p'], p.get('nport', 2))
     return ConfigIsolation()
